@@ -19,11 +19,11 @@ def main():
     try:
         from symex import models, engine
         mod = importlib.import_module('harness.' + mod_name)
-        models.install(m1=getattr(mod, 'M1', True))
+        patches = models.overrides(m1=getattr(mod, 'M1', True))
         jobs = {j.id: j for j in mod.jobs(tier)}
         job = jobs[job_id]
         scale = float(os.environ.get('VERIF_BUDGET_SCALE', '1'))
-        r = engine.run_cell(job.fn, job.pre, job.budget * scale, per_path_timeout=job.per_path_timeout)
+        r = engine.run_cell(job.fn, job.pre, job.budget * scale, per_path_timeout=job.per_path_timeout, extra_patches=patches)
         res.update(r)
         res['fn'] = job.fn.__name__
         res['need_reach'] = job.need_reach
